@@ -63,6 +63,9 @@ RetRecv(h) == IF sk[h].closed THEN ClosedRule(h) /\ UNCHANGED kvars
                            /\ (IO => (Ev.off = rcvd[h] /\ Ev.dataok = 1)) /\ BlockingWait(sk[h])
                            /\ rcvd' = [rcvd EXCEPT ![h] = @ + Ev.res] /\ UNCHANGED <<sk, queue, sent, dg>>
                         \/ ~sk[h].blocking /\ Ev.ok = 0 /\ Ev.err = WouldBlock /\ UNCHANGED kvars      \* not delivered yet
+                        (* bytes the peer's kernel has accepted may still be in flight (Nagle / delayed ACK hold small segments *)
+                        (* back for tens of milliseconds even on loopback): a timed receive may then run out of time          *)
+                        \/ sk[h].blocking /\ sk[h].timeout > 0 /\ Ev.ok = 0 /\ Ev.err = TimedOut /\ TimeoutRule(sk[h]) /\ UNCHANGED kvars
                    ELSE IF PeerGone(h)
                         THEN ((Ev.ok = 1 /\ Ev.res = 0) \/ (Ev.ok = 0 /\ (sk[h].blocking => NoBlockErr))) /\ UNCHANGED kvars
                         ELSE /\ Ev.ok = 0 /\ (IF sk[h].blocking THEN TimeoutRule(sk[h]) /\ (IO => Ev.err = TimedOut) ELSE Ev.err = WouldBlock /\ (LIFE => Ev.npoll = 0))
